@@ -71,8 +71,12 @@ const POOL: &[PoolVal] = &[
     // every consumer, and must end the stream)
     PoolVal { src: "(iterate(0, \\x -> if (x > 3) throw \"boom\" else x + 1) lazy_filter (\\x -> x % 2 == 0))", big: false },
     PoolVal { src: "([1, 0, 2] lazy_map (\\x -> 1 // x))", big: false },
+    // list-backed streams that have been advanced (position > 0): random access, negative indices and
+    // forcing must all be relative to the position
+    PoolVal { src: "(stream([10, 20, 30]) drop 2)", big: false },
+    PoolVal { src: "tail(stream(\"abc\"))", big: false },
 ];
-const QUICK_POOL: &[usize] = &[0, 1, 2, 3, 5, 7, 8, 9, 10, 13, 14, 16, 17, 18, 19, 20, 22, 23, 25, 27, 28, 29, 30, 32, 34, 35, 36, 37];
+const QUICK_POOL: &[usize] = &[0, 1, 2, 3, 5, 7, 8, 9, 10, 13, 14, 16, 17, 18, 19, 20, 22, 23, 25, 27, 28, 29, 30, 32, 34, 35, 36, 37, 38, 39];
 
 #[derive(Clone)]
 struct Case {
@@ -462,9 +466,9 @@ fn main() {
     install_quiet_panic_hook();
     let mut rep = Report::new("C14", &args);
     rep.rule = "sweep: every global builtin (minus the file/process/network/clock/sleep/stdin list) x every tuple of 0..2 arguments \
-                from the pool (28 values quick / 38 thorough: null, ints incl. +-2^63 / 2^64, rational, floats incl. NaN and inf, \
+                from the pool (30 values quick / 40 thorough: null, ints incl. +-2^63 / 2^64, rational, floats incl. NaN and inf, \
                 complex, strings incl. non-ASCII, lists, dicts with and without default, vectors, bytes incl. non-UTF-8, finite \
-                stream, closures, builtins, containers with an unhashable value nested inside, finite streams whose production raises part-way) plus sampled 3-tuples, called through Func::run under catch_unwind in child \
+                stream, closures, builtins, containers with an unhashable value nested inside, finite streams whose production raises part-way, advanced list-backed streams) plus sampled 3-tuples, called through Func::run under catch_unwind in child \
                 processes with a 4 s per-case watchdog and a 6 GiB address-space limit; numeric-size builtins are skipped when an \
                 argument is astronomically large. Then try/catch containment through source programs, the statement sweep (47 statement templates x pool tuples, also in watchdogged child processes) and fault-injected \
                 generated programs. non-trivial = a call that raised or returned normally with >= 1 argument; distinct = \
